@@ -121,4 +121,35 @@ theorem division_behind_call_after : (propagate divisionBehindCall).run javaSem 
 theorem division_behind_call_not_safe : ¬ SafeBlock divisionBehindCall := by decide
 theorem dead_division_not_safe : (dcePass deadDivision).ok = false := by decide
 
+/-! ## a definition deleted while it is still read (known finding `declaration-inside-expression`) -/
+
+/-- `v0 = (char) p10; v1 = p10 + 1; v2 = v1 * 2; v3 = v0 + 1; v4 = v0 - v3; v5 = v4 + v2; return v5`:
+    every register is assigned once, no invoke, no division.  Deleting `v1 = ...` makes the index iteration skip
+    `v3 = v0 + 1` in the first round, so `v4 = v0 - v3` receives first `(char) p10` for `v0` and then `v0 + 1` for `v3`;
+    in the next round `replace(v0, ...)` finds the key `v0` already holding `(char) p10`, overwrites that and never
+    reaches the `v0` inside `v0 + 1`, but the chains are updated as if it had: `v0 = (char) p10` is deleted. -/
+def usedDefinitionDeleted : Block :=
+  ⟨[10],
+   [.assign (some 0) (.un .i2c (some 10) (.var 10)),
+    .assign (some 1) (.bin .add (some 10) (.var 10) none (.const 1)),
+    .assign (some 2) (.bin .mul (some 1) (.var 1) none (.const 2)),
+    .assign (some 3) (.bin .add (some 0) (.var 0) none (.const 1)),
+    .assign (some 4) (.bin .sub (some 0) (.var 0) (some 3) (.var 3)),
+    .assign (some 5) (.bin .add (some 4) (.var 4) (some 2) (.var 2)),
+    .ret (some 5) (.var 5)]⟩
+
+/-- `p10 = 7`, `v0 = 13` on entry -/
+def env7 : Env := fun r => if r = 10 then 7 else if r = 0 then 13 else 0
+
+/-- the pass leaves `return (((char) p10) - (v0 + 1)) + ((p10 + 1) * 2)` and no definition of `v0` -/
+theorem used_definition_deleted_output :
+    (propagate usedDefinitionDeleted).stmts =
+      [.ret (some 5) (.bin .add
+        (some 4) (.bin .sub (some 0) (.un .i2c (some 10) (.var 10))
+                            (some 3) (.bin .add (some 0) (.var 0) none (.const 1)))
+        (some 2) (.bin .mul (some 1) (.bin .add (some 10) (.var 10) none (.const 1)) none (.const 2)))] := by decide
+theorem used_definition_deleted_before : usedDefinitionDeleted.run javaSem env7 = .ret 15 [] := by decide
+theorem used_definition_deleted_after : (propagate usedDefinitionDeleted).run javaSem env7 = .ret 9 [] := by decide
+theorem used_definition_deleted_not_safe : ¬ SafeBlock usedDefinitionDeleted := by decide
+
 end AgVerif.Propagate
